@@ -1,5 +1,7 @@
 package main
 
+import "fmt"
+
 func init() { props["C01"] = propC01 }
 
 func propC01(c *Ctx, r *Report) {
@@ -13,6 +15,17 @@ func propC01(c *Ctx, r *Report) {
 	// what was fetched decides what is applied: a failed entry download is not mistaken for an empty entry
 	r.rule("C01/fetch-errors", 2, "errors of the parallel entry fetch reach SyncBlock")
 	runErrflow(c, computeEffects(c), r, reachOfSelf(c, "node.multiFetch"), "C01/fetch-errors", false)
+	// ... and neither is a failed grading (whose inputs are read through the pool) mistaken for a block without records
+	r.rule("C01/grading-errors", 2, "a failure of the fetch or of the grading of a block's records fails the block: it is not applied as a block without records")
+	nGr := runErrflowSites(c, computeEffects(c), r, c.family(c.fn("node.Pegnetd.SyncBlock")), "C01/grading-errors", func(names []string) bool {
+		for _, n := range names {
+			if n == "node.Pegnetd.Grade" || n == "node.Pegnetd.GradeS" || n == "node.multiFetch" {
+				return true
+			}
+		}
+		return false
+	})
+	r.check(nGr >= 3, "C01/grading-errors", "fetch and grading call sites of SyncBlock", c.pos(c.fn("node.Pegnetd.SyncBlock").Pos()), fmt.Sprintf("%d call sites decided", nGr), fmt.Sprintf("only %d fetch/grading call sites found in SyncBlock (expected at least 3: a fetch, Grade, GradeS)", nGr))
 	// a block retried after a rollback, or applied by a restarted process, sees the same inputs: nothing in memory
 	ruleNoCarriedReads(c, newSharedAnalysis(c), r, "C01/no-carried-state", c.RSync, carriedAllowedAverages, "block processing")
 	// process-start dependence of the averaging window (shared with C09)
